@@ -12,7 +12,9 @@ RULE = ("mutable types x histories in which ~40% of the commands are invalid (ou
         "wrong-length vector / bytes / bits, over-limit list, append to a full list, pop from an empty one, index out of "
         "bounds or negative, unknown field, invalid selector, None for a typed option), at top level and through child "
         "views; after each command: raised-or-not and root+encoding of every held view are compared with the model, and "
-        "(model-free) a failed command must leave every held view exactly as before; non-trivial = >= 1 failing command")
+        "(model-free) a failed command must leave every held view exactly as before; constructors of containers / lists / "
+        "vectors given, for one field or element, a view of ANOTHER type whose content does not fit (wrong vector length, "
+        "over-limit list, out-of-range wider uint) must raise; non-trivial = >= 1 failing command")
 
 
 def gen_inputs(ctx):
@@ -27,9 +29,102 @@ def gen_inputs(ctx):
         bad = gen_arg(rng, t, valid=False)
         if bad[0] == "val":
             yield {"t": t, "v": bad[1], "cmds": []}
+    yield from gen_foreign(ctx)
+
+
+def foreign_view(rng, e):
+    """(description, thunk building a view of ANOTHER type whose content violates e's constraints), or None"""
+    k = e[0]
+    if k == "vec":
+        n2 = e[2] + rng.choice([1, 2, 4])
+        vals = [gen_value(rng, e[1], cap=3) for _ in range(n2)]
+        return ["vec", e[1], n2], vals
+    if k == "list":
+        big = e[2] + 5
+        vals = [gen_value(rng, e[1], cap=3) for _ in range(e[2] + rng.choice([1, 2]))]
+        return ["list", e[1], big], vals
+    if k == "bitvec":
+        n2 = e[1] + rng.choice([1, 8, 256])
+        return ["bitvec", n2], gen_bits(rng, n2)
+    if k == "bitlist":
+        return ["bitlist", e[1] + 300], gen_bits(rng, e[1] + rng.choice([1, 9]))
+    if k == "uint" and e[1] < 32:
+        w2 = rng.choice([w for w in UINTS if w > e[1]])
+        return ["uint", w2], (1 << (8 * e[1])) + rng.randrange(0, 200)
+    return None
+
+
+def gen_foreign(ctx):
+    """constructors (Container fields, List / Vector elements) given a view of ANOTHER type whose content does not fit"""
+    rng = ctx.rng
+    n = 160 if ctx.thorough else 40
+    pool = [t for t in MUTABLE_TOP + EXTRA_FOREIGN if t[0] in ("cont", "list", "vec")]
+    out = 0
+    tries = 0
+    while out < n and tries < 50 * n:
+        tries += 1
+        t = rng.choice(pool)
+        v = gen_value(rng, t, cap=4)
+        slots = list(range(len(t[1]))) if t[0] == "cont" else list(range(len(v)))
+        if not slots:
+            continue
+        i = rng.choice(slots)
+        e = t[1][i] if t[0] == "cont" else t[1]
+        if t[0] != "cont" and is_basic(e):
+            continue                       # packed sequences convert their elements (and reject what does not fit)
+        fv = foreign_view(rng, e)
+        if fv is None:
+            continue
+        out += 1
+        yield {"t": t, "v": v, "cmds": [], "foreign": {"slot": i, "t": fv[0], "v": fv[1]}}
+
+
+EXTRA_FOREIGN = [["cont", [["vec", ["uint", 1], 4], ["uint", 1], ["list", ["uint", 2], 4]]],
+                 ["list", ["vec", ["uint", 1], 4], 3], ["vec", ["list", ["uint", 1], 2], 2],
+                 ["cont", [["bitvec", 9], ["bitlist", 12], ["uint", 2]]], ["list", ["bitlist", 9], 4]]
+
+
+def build_foreign(inp):
+    t, v, fo = inp["t"], inp["v"], inp["foreign"]
+    i = fo["slot"]
+    why = None
+    try:
+        alien = to_py(fo["t"], fo["v"])
+        if t[0] == "cont":
+            kw = {"f%d" % j: to_py(ft, x) for j, (ft, x) in enumerate(zip(t[1], v))}
+            kw["f%d" % i] = alien
+            thunk = lambda: T(t)(**kw)  # noqa
+        else:
+            els = [to_py(t[1], x) for x in v]
+            els[i] = alien
+            thunk = lambda: T(t)(*els)  # noqa
+    except Exception as e:  # noqa
+        thunk = None
+    if thunk is not None:
+        try:
+            x = thunk()
+            why = ("the constructor of %s accepted, for slot %d, a view of another type (%s) whose content does not fit "
+                   "the slot's type" % (json.dumps(t)[:60], i, json.dumps(fo["t"])))
+            try:
+                if type(x).decode_bytes(x.encode_bytes()).hash_tree_root() == x.hash_tree_root():
+                    why += " (the accepted value happens to survive a re-encoding)"
+            except Exception:
+                why += " (the accepted value does not survive a re-encoding)"
+        except Exception:
+            why = None
+    coq, obs, _ = execute({"t": t, "v": v, "cmds": []})      # the well-formed base value, as usual, against the model
+    c = Case(inp, coq, obs, ["P:initial"], nontrivial=True, kind="ctor_foreign_view")
+    c.why = why
+    return c
+
+
+def matches_known(case, match):
+    return match.get("site") == "constructor_given_view_of_another_type" and case.kind == "ctor_foreign_view"
 
 
 def build(inp):
+    if "foreign" in inp:
+        return build_foreign(inp)
     try:
         to_py(inp["t"], inp["v"])
     except Exception:
